@@ -239,6 +239,11 @@ func c03Twin(t *testing.T, run *h.Run, maxN int) {
 }
 
 func c03TwinOne(t *testing.T, run *h.Run, seq []int, cfg c03Config) {
+	c03TwinEval(t, run, "C03", seq, cfg, func(deleted []bool, mu, mf int) (string, string) { return c03Oracle(seq, deleted, mu, mf) })
+}
+
+// c03TwinEval runs one real replica-set sync on the prepared store and hands the set of deleted pods to judge.
+func c03TwinEval(t *testing.T, run *h.Run, prop string, seq []int, cfg c03Config, judge func(deleted []bool, mu, mf int) (string, string)) {
 	at := time.Hour
 	w.InBubble(t, at, func() {
 		now := time.Now()
@@ -294,7 +299,7 @@ func c03TwinOne(t *testing.T, run *h.Run, seq []int, cfg c03Config) {
 		l.API.ResetLog()
 		rr := l.ReconcileERS("ns", rs.Name)
 		if rr.Panic != nil {
-			run.Violate(h.Violation{Signature: fmt.Sprintf("C03/panic: %v at %s", rr.Panic, rr.PanicSite), Monitor: "C03/twin", Message: fmt.Sprint(rr.Panic),
+			run.Violate(h.Violation{Signature: fmt.Sprintf(prop+"/panic: %v at %s", rr.Panic, rr.PanicSite), Monitor: prop + "/twin", Message: fmt.Sprint(rr.Panic),
 				Replay: map[string]interface{}{"level": "reconcile", "classes": c03Names(seq), "maxUnavailable": cfg.mu, "maxPodSchedulerFailure": cfg.mpsf}})
 			return
 		}
@@ -310,8 +315,8 @@ func c03TwinOne(t *testing.T, run *h.Run, seq []int, cfg c03Config) {
 		}
 		mu := resolveStr(cfg.mu, len(seq))
 		mf := resolveStr(cfg.mpsf, len(seq))
-		if sig, msg := c03Oracle(seq, deleted, mu, mf); sig != "" {
-			run.Violate(h.Violation{Signature: sig, Monitor: "C03/twin", Message: msg, Rank: int64(len(seq)),
+		if sig, msg := judge(deleted, mu, mf); sig != "" {
+			run.Violate(h.Violation{Signature: sig, Monitor: prop + "/twin", Message: msg, Rank: int64(len(seq)),
 				Replay: map[string]interface{}{"level": "reconcile", "classes": c03Names(seq), "maxUnavailable": cfg.mu, "maxPodSchedulerFailure": cfg.mpsf, "stored_status_desired_offset": cfg.stale, "migration_overlapping_selector": cfg.migration, "nodes_cordoned": cfg.cordoned, "deleted": deleted}})
 		}
 		if nd > 0 {
